@@ -58,6 +58,9 @@ type vfRecCase struct {
 	Faults       vfFaults `json:"faults"`
 	ProcessFrame bool     `json:"process_frame,omitempty"` // feed through ProcessFrame() instead of Process()
 	Lepton       bool     `json:"lepton,omitempty"`        // raw Lepton frames through lepton3.ParseRawFrame instead of the harness parser
+	// FrameBase: the processor's running frame number (a 32-bit counter the daemon reports to snapshot clients) at
+	// the start of the stream, as if the connection had already delivered that many frames
+	FrameBase uint32 `json:"frame_base,omitempty"`
 }
 
 // vfCall is one call received by a sink.
@@ -260,6 +263,9 @@ func vfDrive(c vfRecCase, perEvent func(run *vfRecRun, i int)) *vfRecRun {
 	}
 	mp := NewMotionProcessor(parser, vfMotionConf(c.Cfg), rc, &config.Location{}, &vfListener{tr}, msink, cam, csink, tsink)
 	run.mp = mp
+	if c.FrameBase != 0 {
+		mp.CurrentFrame = c.FrameBase
+	}
 
 	raw := make([]byte, vfRawHdr+2*c.Cfg.W*c.Cfg.H)
 	if c.Lepton {
